@@ -232,13 +232,16 @@ def leaf(domain):
     gen = [st.builds(lambda: M("Always", domain)), st.builds(lambda: M("Never", domain))]
     if domain == "int":
         gen += [st.builds(lambda k, n: M(n, "int", k=k), st.integers(-1, 4), st.sampled_from(["Equals", "NotEquals", "LessThan", "GreaterThan"])),
-                st.builds(lambda t: M("IsInstance", "int", types=t), st.sampled_from([["int"], ["str"], ["str", "int"], ["bool"]])),
+                st.builds(lambda t: M("IsInstance", "int", types=t), st.sampled_from([["int"], ["str"], ["str", "int"], ["bool"], ["int|str"], ["bool", "int|str"]])),
                 st.builds(lambda: M("MatchesPredicate", "int")),
                 st.builds(lambda k, form: M("MatchesPredicateWithParams", "int", k=k, form=form), st.integers(0, 3), st.sampled_from(["pos", "kw", "two", "truthy"])),
                 st.builds(lambda: M("IsNone", "int"))]
     elif domain == "str":
         gen += [st.builds(lambda s, n: M(n, "str", s=s), STR, st.sampled_from(["Equals", "StartsWith", "EndsWith", "Contains", "NotEquals"])),
                 st.builds(lambda p, f: M("MatchesRegex", "str", p=p, flags=f), st.sampled_from(RE_PATTERNS), st.sampled_from([0, re.I, re.S, re.I | re.S])),
+                st.builds(lambda p: M("MatchesRegex", "str", p=p, flags=0, compiled=True), st.sampled_from(RE_PATTERNS)),
+                # message templates that consist of nothing but the matchee
+                st.builds(lambda w: M("MatchesPredicate", "str", which=w), st.sampled_from(["percent", "braces"])),
                 st.builds(lambda e, f: M("DocTestMatches", "str", ex=e, flags=f), st.sampled_from(DOC_EXAMPLES), st.sampled_from(DOC_FLAGS)),
                 st.builds(lambda n: M("HasLength", "str", n=n), st.integers(0, 4))]
     elif domain == "bytes":
@@ -387,7 +390,11 @@ def build(spec, env):
     if m == "IsNone":
         return tm.Is(None)
     if m == "IsInstance":
-        return tm.IsInstance(*[{"int": int, "str": str, "bool": bool}[t] for t in spec["types"]])
+        return tm.IsInstance(*[{"int": int, "str": str, "bool": bool, "int|str": int | str}[t] for t in spec["types"]])
+    if m == "MatchesPredicate" and spec.get("which") == "percent":
+        return tm.MatchesPredicate(str.isupper, "%s")
+    if m == "MatchesPredicate" and spec.get("which") == "braces":
+        return tm.MatchesPredicateWithParams(lambda s: s.isupper(), "{0}")()
     if m == "MatchesPredicate":
         return tm.MatchesPredicate(is_even, "%s is not even")
     if m == "MatchesPredicateWithParams":
@@ -407,6 +414,8 @@ def build(spec, env):
         return getattr(tm, m)(spec["s"])
     if m == "Contains":
         return tm.Contains(spec.get("s", spec.get("k")))
+    if m == "MatchesRegex" and spec.get("compiled"):
+        return tm.MatchesRegex(re.compile(spec["p"]))
     if m == "MatchesRegex":
         return tm.MatchesRegex(spec["p"], spec["flags"])
     if m == "DocTestMatches":
@@ -639,7 +648,9 @@ def _ref(spec, v, env=None):
     if m == "IsNone":
         return v is None
     if m == "IsInstance":
-        return isinstance(v, tuple({"int": int, "str": str, "bool": bool}[t] for t in spec["types"]))
+        return isinstance(v, tuple({"int": int, "str": str, "bool": bool, "int|str": (int, str)}[t] for t in spec["types"]))
+    if m == "MatchesPredicate" and spec.get("which"):
+        return v.isupper()
     if m == "MatchesPredicate":
         return v % 2 == 0
     if m == "MatchesPredicateWithParams":
